@@ -26,7 +26,7 @@ TIERS = {"quick": dict(shards=8, examples=500), "thorough": dict(shards=16, exam
 TOKEN_RE = re.compile(r"^(pad|sta|sto|bar|rst_\d+|trk_\d+|val_\d+|vel_\d+|tsg_\d+_\d+|((trk_\d+-)?pit_\d+(-val_\d+)?(-vel_\d+)?))$")
 OPS = ["quantise", "qnl", "qan", "normalise", "pad", "cutoff", "transpose", "scale", "set_channel", "split", "merge",
        "concatenate", "bar", "split_bars", "composition", "tokenise", "tokenise_bars"]
-SIGS = [(4, 4), (3, 4), (6, 8), (2, 4), (5, 8), (3, 8), (12, 8), (2, 2), (1, 4), (7, 16), (3, 16)]
+SIGS = [(4, 4), (3, 4), (6, 8), (2, 4), (5, 8), (3, 8), (12, 8), (2, 2), (1, 4), (7, 16), (3, 16), (6, 64), (10, 64), (7, 32)]
 
 
 @st.composite
@@ -36,11 +36,15 @@ def _case(draw):
     for i in range(k):
         ts = []
         if i == 0 and draw(st.booleans()):
-            sig = draw(st.sampled_from(SIGS[:8]))
-            ts = [["ts", 0, sig[0], sig[1]]]
-            if draw(st.booleans()):
-                sig2 = draw(st.sampled_from(SIGS[:8]))
-                ts.append(["ts", 96 * sig[0] // sig[1] * draw(st.integers(1, 2)), sig2[0], sig2[1]])
+            sig = draw(st.sampled_from(SIGS))
+            if draw(st.integers(0, 2)) == 0:
+                # no signature at tick 0: the first one arrives after one or two implicit 4/4 bars
+                ts = [["ts", 96 * draw(st.integers(1, 2)), sig[0], sig[1]]]
+            else:
+                ts = [["ts", 0, sig[0], sig[1]]]
+                if draw(st.booleans()):
+                    sig2 = draw(st.sampled_from(SIGS))
+                    ts.append(["ts", 96 * sig[0] // sig[1] * draw(st.integers(1, 2)), sig2[0], sig2[1]])
         notes = draw(gens.wellformed_notes(channels=(i,), pitches=(60, 62, 64, 65), max_notes=7, max_len=60, max_gap=40))
         spec = {"notes": notes, "meta": ts}
         spec.update(draw(gens.route()))
